@@ -27,6 +27,11 @@ if VERIF not in sys.path:
 
 from sim import findings, runner  # noqa: E402
 
+ENV_RULE = (" Every case additionally carries an environment drawn from the same tape (sim/env.py): in 12% of the cases the "
+            "directory everything lives in has a name with glob metacharacters, blanks, braces or non-ASCII letters, in 8% "
+            "sys.stdout encodes strictly as ascii/latin-1, in 8% open() without encoding= means ascii/latin-1 below the "
+            "scratch root (counts: env:* in fault_and_probe_counts).")
+
 BUDGETS = {
     # pid: tier: (total run indices, per-worker wall budget seconds)
     "C03": {"quick": (24000, 55), "thorough": (600000, 900)},
@@ -217,7 +222,7 @@ def write_evidence(pid, tier, seed, results, reported, known_hits, errors, wall,
         "coverage": {
             "evaluations": max(evals, 0),
             "distinct_nontrivial": len(nontrivial),
-            "rule": getattr(eng, "RULE", ""),
+            "rule": getattr(eng, "RULE", "") + ENV_RULE,
             "samples": samples[:4],
             "simulated_runs": runs,
             "discarded_candidates": disc,
